@@ -1,0 +1,85 @@
+//go:build verif
+
+// Contracts of the GENERATOR half of the transaction-internal Merkle tree (property C08, owner con-c08g):
+// New, (*HTree).BuildWith (block in zz_verif_contracts.go, extended by con-c08g), (*HTree).InclusionProof.
+// spec_node / spec_leaf / spec_hdig and the VerifyInclusion contract are con-c01's (zz_verif_contracts.go).
+package htree
+
+import "crypto/sha256"
+
+// Representation invariant WF(t), spelled out in every clause (quantifiers cannot live in Go spec functions):
+//   t.maxWidth > 0 ==>
+//     H := len(t.levels), 1 <= H <= 41
+//     len(t.levels[k]) == 1 << (H-1-k)      for every k < H   (a complete binary tree over 2^(H-1) leaves)
+//     t.maxWidth <= 1 << (H-1)
+//     the rows t.levels[k] are pairwise different objects and different from *t
+// A tree with maxWidth <= 0 has no levels at all (New(0): only BuildWith(empty) succeeds).
+
+// New: `requires` is the resource bound of the allocation: every caller passes a slice length or an entry count that
+// was validated against maxTxEntries. (New(n) for n > 2^62 never returns: `lw << 1` wraps to a negative number, then to 0;
+// for 2^43 < n <= 2^62 make panics/out of memory. See notes/con-c08g.md.)
+//@ func New
+//@   requires maxWidth <= 1<<40
+//@   ensures ok: r1 == nil && r0 != nil && fresh(r0)
+//@   ensures mw: r0.maxWidth == maxWidth && r0.width == 0
+//@   ensures nolev: maxWidth <= 0 ==> len(r0.levels) == 0
+//@   ensures nlev: maxWidth > 0 ==> 1 <= len(r0.levels) && len(r0.levels) <= 41
+//@   ensures rows: maxWidth > 0 ==> forall(k, 0, len(r0.levels), len(r0.levels[k]) == 1 << uint(len(r0.levels)-1-k))
+//@   ensures cap: maxWidth > 0 ==> maxWidth <= 1 << uint(len(r0.levels)-1)
+//@   ensures sep: maxWidth > 0 ==> forall(k, 0, len(r0.levels), forall(j, 0, k, !sameobj(r0.levels[k], r0.levels[j])))
+//@   ensures sept: maxWidth > 0 ==> forall(k, 0, len(r0.levels), !sameobj(r0.levels[k], r0))
+//@   ensures sepb: maxWidth > 0 ==> forall(k, 0, len(r0.levels), !sameobj(r0.levels[k], r0.levels))
+//@   loop 1 invariant pow: 0 < lw && lw <= 1<<40 && lw&(lw-1) == 0 && (lw == 1 || lw>>1 < maxWidth)
+//@   loop 1 decreases (1<<41) - lw
+//@   loop 2 invariant rng: 0 <= l && l <= height && len(levels) == height && 1 <= height && height <= 41
+//@   loop 2 invariant lw: lw == 1 << uint(height-1) && maxWidth <= lw
+//@   loop 2 invariant rows: forall(k, 0, l, len(levels[k]) == lw >> uint(k))
+//@   loop 2 invariant sep: forall(k, 0, l, forall(j, 0, k, !sameobj(levels[k], levels[j])))
+//@   loop 2 decreases height - l
+
+// spec_lw: number of nodes of level l of the reference tree over n leaves: every level halves, rounding up (an unpaired
+// last node is promoted).
+func spec_lw(n int, l int) int {
+	if l <= 0 {
+		return n
+	}
+	return (spec_lw(n, l-1) + 1) / 2
+}
+
+// spec_top: index of the top level (the first level with a single node) of the reference tree over n >= 1 leaves.
+func spec_top(n int) int {
+	if n <= 1 {
+		return 0
+	}
+	return 1 + spec_top((n+1)/2)
+}
+
+// spec_empty: root of the empty tree.
+func spec_empty() [sha256.Size]byte {
+	return sha256.Sum256(nil)
+}
+
+// InclusionProof: WF(t) (lengths only) and the state after New / a successful BuildWith: 0 <= width <= maxWidth.
+// NO precondition on i: the code rejects i >= width but not i < 0 (genuine defect, see notes/con-c08g.md). Invariant
+// `neg` describes the run for i < 0 (always the left branch: m = i, offset = 0, n shrinks to 1): the two obligations that
+// fail are exactly the two panics of that run: `1 << (d-1)` with d == 0 (width >= 2, reached when n == 1) and
+// t.levels[63] (width == 0: n == 0, d == 64, k == MinInt64).
+// Loop: [offset, offset+n) is the subtree that contains leaf i, m = i - offset; the sibling subtree [l, r] lies inside
+// [0, width), hence layer = Len(r-l) <= H-1 and index = l >> layer < len(levels[layer]).
+//@ func (*HTree).InclusionProof
+//@   requires nlev: t.maxWidth > 0 ==> 1 <= len(t.levels) && len(t.levels) <= 41 && t.maxWidth <= 1 << uint(len(t.levels)-1)
+//@   requires rows: t.maxWidth > 0 ==> forall(k, 0, len(t.levels), len(t.levels[k]) == 1 << uint(len(t.levels)-1-k))
+//@   requires nolev: t.maxWidth <= 0 ==> len(t.levels) == 0
+//@   requires built: 0 <= t.width && t.width <= t.maxWidth
+//@   assigns nothing
+//@   ensures err: (err != nil) == (i < 0 || i >= t.width)
+//@   ensures errv: err != nil ==> err == ErrIllegalArguments && proof == nil
+//@   ensures ok: err == nil ==> proof != nil && fresh(proof) && proof.Leaf == i && proof.Width == t.width
+//@   ensures nterms: err == nil ==> len(proof.Terms) < t.width
+//@   ensures one: err == nil && t.width == 1 ==> len(proof.Terms) == 0
+//@   loop 1 invariant pr: proof != nil && proof.Leaf == i && proof.Width == t.width
+//@   loop 1 invariant rng: 0 <= offset && offset <= t.width && 0 <= n && n <= t.width && offset+n <= t.width
+//@   loop 1 invariant pos: i >= 0 ==> 0 <= m && m < n && 2 <= n && offset+m == i
+//@   loop 1 invariant nt: i >= 0 ==> len(proof.Terms)+n <= t.width
+//@   loop 1 invariant neg: i < 0 ==> m == i
+//@   loop 1 decreases n
